@@ -44,6 +44,7 @@ func runC10(e *Engine, r *Report) {
 	ruleDurableMkdir(e, r)
 	ruleTanManifestSync(e, r)
 	ruleCreatedFileSync(e, r, 1, "internal/tan", "internal/fileutil")
+	ruleTanNewLogOrder(e, r)
 }
 
 // runTanDirSync: after the CURRENT pointer is switched (rename inside
